@@ -143,7 +143,7 @@ ALL = {
     'C08': dict(
         technique='solver-based: CrossHair/z3 exhaustion of symbolic instance choices (presence bits, repetition counts) of message '
                   'structures through the real group-finding parser, compared with a reference expander',
-        text='Bounded model checking: 64 structures (thorough 400, seeded) x 256 instances each, TOLERANT and STRICT: every parsed element is a declared '
+        text='Bounded model checking: 64 structures (thorough 400, seeded) x 576 instances each, TOLERANT and STRICT: every parsed element is a declared '
              'child of its parent, flattening gives the input sequence, find_groups=False encodes identically, and for structures '
              'with unique segment names the tree equals the reference tree and has no structural validation error.',
         note='Instances: first 6 optional children, up to 2 repeated groups whose first member is required and non-repeatable.',
